@@ -198,6 +198,7 @@ class OnionWorld:
                     "goal": ci.goal_hops, "hops": [self.name_of_peer(h.peer) for h in ci.hops],
                     "unv": self.name_of_peer(ci.unverified_hop.peer) if ci.unverified_hop else "none",
                     "via": self.name_of_addr(ci.hop.address) if (ci.hops or ci.unverified_hop) else "none",
+                    "act": int(round((ci.last_activity - self.t0) * MS)),
                     "closing": ci.state == "CLOSING", "early": ci.relay_early_count,
                     "ctype": {"RP_DOWNLOADER": "RPD", "RP_SEEDER": "RPS"}.get(ci.ctype, ci.ctype),
                     "hs": ci.hs_session_keys is not None}]
